@@ -70,6 +70,7 @@ package keeper
 
 //@ func (k Keeper) CalcAssetPrice
 //@   property C17, C03, C14
+//@   pure
 //@   let t0 = k.GetTwa(ctx, id).0
 //@   let f0 = k.GetTwa(ctx, id).1
 //@   let a0 = k.assetKeeper.GetAsset(ctx, id).0
